@@ -489,6 +489,14 @@ func (s *Server) waitCallback(pctx context.Context, id string, p *Response) {
 }
 
 func (s *Server) pushReq(ctx context.Context, wantID bool, method string, params any) (rsp *Response, _ error) {
+	// A closed connection is reported as such, whatever the parameters are.
+	s.mu.Lock()
+	closed := s.ch == nil
+	s.mu.Unlock()
+	if closed {
+		return nil, ErrConnClosed
+	}
+
 	var bits []byte
 	if params != nil {
 		v, err := json.Marshal(params)
